@@ -50,7 +50,10 @@ def set_dimensions(poly: PolyLike, dimensions: Optional[int] = None) -> ndpoly:
                 names_.append(f"{varname}{idx}")
             idx += 1
 
-        indices = numpy.lexsort([names_])
+        # in index order (q2 before q10), like alignment orders them
+        indices = numpy.argsort(
+            [int(name[len(varname) :] or "0") for name in names_], kind="stable"
+        )
         exponents = exponents[:, indices]
         names = tuple(names_[idx] for idx in indices)
 
